@@ -44,7 +44,7 @@ package compactindex36
 //@   mode bv
 //@   requires h != nil && buf != nil
 //@   modifies h
-//@   ensures result == nil ==> h.FileSize == le64h(buf, 8) && h.NumBuckets == le32h(buf, 16) && buf[20] == 1
+//@   ensures result == nil ==> h.FileSize == le64h(buf, 8) && h.NumBuckets == le32h(buf, 16) && buf[20] == 1 && h.NumBuckets >= 1
 //@   ensures result == nil ==> forall i int :: 0 <= i && i < 8 ==> buf[i] == Magic[i]
 //@   ensures result == nil ==> forall i int :: 21 <= i && i < 32 ==> buf[i] == 0
 //@   ensures result != nil ==> result != ErrNotFound
@@ -127,21 +127,26 @@ package compactindex36
 
 // ---- search over the eytzinger layout ----
 // (`result1 != nil ==> result0 == Empty` is not stated: vcgo gives every read of the package variable Empty a fresh value.)
+// Soundness (a nil error returns the value of an entry whose hash is x) needs no assumption on the entries.
+// Completeness (ErrNotFound means no entry has hash x) is stated under the binary-search-tree order of the layout
+// (the order that eytzinger() produces from a strictly ascending input, lemma eytzOrder) and getter errors != ErrNotFound.
 // H(t) below is res0(getter, t-1).Hash: the hash stored in node t (1-based) of the implicit tree.
 
 //@ func searchEytzinger
 //@   mode int
 //@   fnpure getter
 //@   requires min == 0 && 0 <= max && max <= 1099511627776 && getter != nil
-//@   requires forall t int :: 0 <= t && t < max ==> res1(getter, t) != ErrNotFound
-//@   requires forall j, k int :: 1 <= k && k <= max && 1 <= j && j <= max && anc(j, 2*k) ==> res0(getter, j-1).Hash < res0(getter, k-1).Hash
-//@   requires forall j, k int :: 1 <= k && k <= max && 1 <= j && j <= max && anc(j, 2*k+1) ==> res0(getter, j-1).Hash > res0(getter, k-1).Hash
 //@   ensures result1 == nil ==> exists t int :: 0 <= t && t < max && res1(getter, t) == nil && res0(getter, t).Hash == x && result0 == res0(getter, t).Value
-//@   ensures result1 == ErrNotFound ==> forall t int :: 0 <= t && t < max ==> res0(getter, t).Hash != x
+//@   ensures (forall t int :: 0 <= t && t < max ==> res1(getter, t) != ErrNotFound)
+//@ |   && (forall j, k int :: 1 <= k && k <= max && 1 <= j && j <= max && anc(j, 2*k) ==> res0(getter, j-1).Hash < res0(getter, k-1).Hash)
+//@ |   && (forall j, k int :: 1 <= k && k <= max && 1 <= j && j <= max && anc(j, 2*k+1) ==> res0(getter, j-1).Hash > res0(getter, k-1).Hash)
+//@ |   && result1 == ErrNotFound ==> (forall t int :: 0 <= t && t < max ==> res0(getter, t).Hash != x)
 //@   ensures result1 != nil && result1 != ErrNotFound ==> exists t int :: 0 <= t && t < max && res1(getter, t) == result1
 //@   use forall t int :: ancRoot(t)
 //@   loop 0 invariant 0 <= index
-//@   loop 0 invariant forall t int :: 1 <= t && t <= max && res0(getter, t-1).Hash == x ==> anc(t, index+1)
+//@   loop 0 invariant (forall j, k int :: 1 <= k && k <= max && 1 <= j && j <= max && anc(j, 2*k) ==> res0(getter, j-1).Hash < res0(getter, k-1).Hash)
+//@ |   && (forall j, k int :: 1 <= k && k <= max && 1 <= j && j <= max && anc(j, 2*k+1) ==> res0(getter, j-1).Hash > res0(getter, k-1).Hash)
+//@ |   ==> (forall t int :: 1 <= t && t <= max && res0(getter, t-1).Hash == x ==> anc(t, index+1))
 //@   loop 0 use forall t int :: t > index+1 ==> ancSplit(t, index+1)
 //@   loop 0 use forall t int :: ancBelow(t, index+1)
 //@   loop 0 decreases max - index
@@ -176,11 +181,11 @@ package compactindex36
 //@   requires b != nil && b.Entries != nil
 //@   requires int(b.OffsetWidth) <= 252 && int(b.Stride) == 3 + int(b.OffsetWidth)
 //@   requires b.HashLen == 3
-//@   requires forall t int :: 0 <= t && t < int(b.NumEntries) ==> res1(b.loadEntry, t) != ErrNotFound
-//@   requires forall j, k int :: 1 <= k && k <= int(b.NumEntries) && 1 <= j && j <= int(b.NumEntries) && anc(j, 2*k) ==> res0(b.loadEntry, j-1).Hash < res0(b.loadEntry, k-1).Hash
-//@   requires forall j, k int :: 1 <= k && k <= int(b.NumEntries) && 1 <= j && j <= int(b.NumEntries) && anc(j, 2*k+1) ==> res0(b.loadEntry, j-1).Hash > res0(b.loadEntry, k-1).Hash
 //@   ensures result1 == nil ==> exists t int :: 0 <= t && t < int(b.NumEntries) && res1(b.loadEntry, t) == nil && res0(b.loadEntry, t).Hash == target && result0 == res0(b.loadEntry, t).Value
-//@   ensures result1 == ErrNotFound ==> forall t int :: 0 <= t && t < int(b.NumEntries) ==> res0(b.loadEntry, t).Hash != target
+//@   ensures (forall t int :: 0 <= t && t < int(b.NumEntries) ==> res1(b.loadEntry, t) != ErrNotFound)
+//@ |   && (forall j, k int :: 1 <= k && k <= int(b.NumEntries) && 1 <= j && j <= int(b.NumEntries) && anc(j, 2*k) ==> res0(b.loadEntry, j-1).Hash < res0(b.loadEntry, k-1).Hash)
+//@ |   && (forall j, k int :: 1 <= k && k <= int(b.NumEntries) && 1 <= j && j <= int(b.NumEntries) && anc(j, 2*k+1) ==> res0(b.loadEntry, j-1).Hash > res0(b.loadEntry, k-1).Hash)
+//@ |   && result1 == ErrNotFound ==> (forall t int :: 0 <= t && t < int(b.NumEntries) ==> res0(b.loadEntry, t).Hash != target)
 //@   ensures result1 != nil && result1 != ErrNotFound ==> exists t int :: 0 <= t && t < int(b.NumEntries) && res1(b.loadEntry, t) == result1
 
 //@ func (*Bucket) Lookup
@@ -188,9 +193,6 @@ package compactindex36
 //@   requires b != nil && b.Entries != nil
 //@   requires int(b.OffsetWidth) <= 252 && int(b.Stride) == 3 + int(b.OffsetWidth)
 //@   requires b.HashLen == 3
-//@   requires forall t int :: 0 <= t && t < int(b.NumEntries) ==> res1(b.loadEntry, t) != ErrNotFound
-//@   requires forall j, k int :: 1 <= k && k <= int(b.NumEntries) && 1 <= j && j <= int(b.NumEntries) && anc(j, 2*k) ==> res0(b.loadEntry, j-1).Hash < res0(b.loadEntry, k-1).Hash
-//@   requires forall j, k int :: 1 <= k && k <= int(b.NumEntries) && 1 <= j && j <= int(b.NumEntries) && anc(j, 2*k+1) ==> res0(b.loadEntry, j-1).Hash > res0(b.loadEntry, k-1).Hash
 //@   ensures result1 == nil ==> exists t int :: 0 <= t && t < int(b.NumEntries) && res1(b.loadEntry, t) == nil && result0 == res0(b.loadEntry, t).Value
 //@   ensures result1 != nil && result1 != ErrNotFound ==> exists t int :: 0 <= t && t < int(b.NumEntries) && res1(b.loadEntry, t) == result1
 
@@ -210,19 +212,19 @@ package compactindex36
 //@   requires validDB(db)
 //@   ensures result1 == nil ==> result0 != nil && fresh(result0) && result0.Entries != nil
 //@   ensures result1 == nil ==> result0.OffsetWidth == 36 && int(result0.Stride) == 39
-//@   ensures result1 == nil ==> result0.HashLen == fbyte(db.Stream, 32 + int64(i)*16 + 8)
+//@   ensures result1 == nil ==> result0.HashLen == fbyte(db.Stream, 32 + int64(i)*16 + 8) && result0.HashLen == 3
 //@   ensures result1 != nil ==> result1 != ErrNotFound
 
 //@ func (*DB) LookupBucket
 //@   mode int
 //@   requires validDB(db)
-//@   ensures result1 == nil ==> result0 != nil && fresh(result0) && result0.Entries != nil
+//@   ensures result1 == nil ==> result0 != nil && fresh(result0) && result0.Entries != nil && result0.HashLen == 3
 //@   ensures result1 == nil ==> result0.OffsetWidth == 36 && int(result0.Stride) == 39
 //@   ensures result1 != nil ==> result1 != ErrNotFound
 
-// Top-level query. No precondition beyond a handle returned by Open: the failing `pre` obligations of this function are
-// the reader-side findings (see report): HashLen of the bucket header is used unchecked, and the eytzinger order of the
-// entries in the file is an assumption on the file content.
+// Top-level query. No precondition beyond a handle returned by Open (NumBuckets >= 1 and HashLen == 3 are now checked
+// by Header.Load / GetBucket). Completeness ("a key that was inserted is found") is carried by the conditional
+// postcondition of (*Bucket).binarySearch: it cannot be restated here because the bucket is created inside.
 //@ func (*DB) Lookup
 //@   mode int
 //@   requires validDB(db)
@@ -237,7 +239,7 @@ package compactindex36
 //@   ensures result1 == nil ==> result0 != nil && fresh(result0) && result0.Header.FileSize >= 1
 //@   ensures result1 == nil && targetFileSize != 0 ==> result0.Header.FileSize == targetFileSize
 //@   ensures result1 == nil && numItems <= 40000000000000 ==> validBuilder(result0) && len(result0.buckets) == int(result0.Header.NumBuckets)
-//@   ensures result1 == nil && 1 <= numItems && numItems <= 40000000000000 ==> validBuilder(result0) && len(result0.buckets) == int(result0.Header.NumBuckets)
+//@   ensures result1 == nil ==> numItems >= 1
 //@   ensures result1 == nil ==> forall k int :: 0 <= k && k < len(result0.buckets) ==> result0.buckets[k].writer != nil && result0.buckets[k].records == 0
 //@   loop 0 invariant forall k int :: 0 <= k && k < rangeidx0 ==> buckets[k].writer != nil
 //@   loop 0 invariant forall k int :: 0 <= k && k < len(buckets) ==> buckets[k].records == 0
@@ -274,70 +276,19 @@ package compactindex36
 //@   modifies entries, bitmap, consumed(rd)
 //@   loop 0 invariant 0 <= rangeidx0
 
-// ---- eytzinger layout: subtree sizes of the implicit tree (anc and its lemmas are in theories/heap_tree.vcl) ----
-// sz(n, k) = number of nodes of the subtree rooted at k (1-based) in the implicit tree with n nodes.
-
-//@ spec func sz(n int, k int) int = ite(k >= 1 && k <= n, 1 + sz(n, 2*k) + sz(n, 2*k+1), 0)
-
-//@ lemma szNonneg(n int, k int)
-//@   requires k >= 1
-//@   ensures sz(n, k) >= 0
-//@   decreases ite(k <= n, n + 1 - k, 0)
-//@   induct szNonneg(n, 2*k)
-//@   induct szNonneg(n, 2*k+1)
-//@   use unfold(sz(n, k))
-
-//@ lemma ancDisjoint(j int, k int)
-//@   requires k >= 1
-//@   ensures !(anc(j, 2*k) && anc(j, 2*k+1))
-//@   decreases ite(j >= 0, j, 0)
-//@   induct ancDisjoint(j/2, k)
-//@   use unfold(anc(j, 2*k)) && unfold(anc(j, 2*k+1)) && unfold(anc(j/2, 2*k)) && unfold(anc(j/2, 2*k+1))
-
-//@ lemma szStep(n int, k int)
-//@   requires n >= 1 && k >= 1
-//@   ensures sz(n, k) == sz(n-1, k) + ite(anc(n, k), 1, 0)
-//@   decreases ite(k <= n, n + 1 - k, 0)
-//@   induct szStep(n, 2*k)
-//@   induct szStep(n, 2*k+1)
-//@   use unfold(sz(n, k)) && unfold(sz(n-1, k)) && unfold(anc(n, k)) && ancDisjoint(n, k) && (n > k ==> ancSplit(n, k))
-//@   use unfold(sz(n, 2*k)) && unfold(sz(n, 2*k+1)) && unfold(sz(n-1, 2*k)) && unfold(sz(n-1, 2*k+1))
-
-//@ lemma szRoot(n int)
-//@   requires n >= 0
-//@   ensures sz(n, 1) == n
-//@   decreases n
-//@   induct szRoot(n-1)
-//@   use unfold(sz(n, 1)) && (n >= 1 ==> szStep(n, 1)) && (n >= 1 ==> ancRoot(n))
-
-// lo(n, k) = in-order rank of the first node of the subtree rooted at k; node k itself has rank lo(n, k) + sz(n, 2k).
-//@ spec func lo(n int, k int) int = ite(k <= 1, 0, ite(k % 2 == 0, lo(n, k/2), lo(n, k/2) + sz(n, k-1) + 1))
-
-// Nesting: the in-order ranks of the subtree of j lie inside those of any ancestor k.
-//@ lemma loRange(n int, j int, k int)
-//@   requires k >= 1 && j <= n && anc(j, k)
-//@   ensures lo(n, k) <= lo(n, j) && lo(n, j) + sz(n, j) <= lo(n, k) + sz(n, k)
-//@   decreases ite(j >= 0, j, 0)
-//@   induct loRange(n, j/2, k)
-//@   use unfold(anc(j, k)) && unfold(lo(n, j)) && unfold(sz(n, j/2)) && szNonneg(n, j) && szNonneg(n, 2*(j/2)) && szNonneg(n, 2*(j/2)+1)
-
-// Search-tree order of the layout: everything below the left child of k has a smaller rank than k, below the right child a larger one.
-//@ lemma eytzOrder(n int, j int, k int)
-//@   requires k >= 1 && k <= n && 1 <= j && j <= n
-//@   ensures anc(j, 2*k) ==> lo(n, j) + sz(n, 2*j) < lo(n, k) + sz(n, 2*k)
-//@   ensures anc(j, 2*k+1) ==> lo(n, j) + sz(n, 2*j) > lo(n, k) + sz(n, 2*k)
-//@   use (anc(j, 2*k) ==> loRange(n, j, 2*k)) && (anc(j, 2*k+1) ==> loRange(n, j, 2*k+1))
-//@   use unfold(sz(n, j)) && unfold(lo(n, 2*k)) && unfold(lo(n, 2*k+1)) && szNonneg(n, 2*j) && szNonneg(n, 2*j+1)
+// ---- eytzinger layout ----
+// sz, lo, rank and the lemmas szNonneg, ancDisjoint, szStep, szRoot, loRange, eytzOrder, rankRange, eytzBST are in
+// /verif/theories/heap_tree.vcl (rank(n, j) = lo(n, j) + sz(n, 2j) = in-order rank of node j).
 
 // eytzinger(in, out, i, k) copies the next sz(len(in), k) elements of `in`, starting at i, into the subtree rooted at k:
-// node j of that subtree receives the element of in-order rank lo(n, j) + sz(n, 2j); all other nodes keep their value.
+// node j of that subtree receives the element of in-order rank rank(n, j); all other nodes keep their value.
 //@ func eytzinger
 //@   mode int
 //@   requires k >= 1 && 0 <= i && i + sz(len(in), k) <= len(in) && len(in) <= len(out) && len(in) <= 2305843009213693952
 //@   requires i == lo(len(in), k) && ref(in) != ref(out)
 //@   modifies out
 //@   ensures result == i + sz(len(in), k)
-//@   ensures forall j int :: 1 <= j && j <= len(in) && anc(j, k) ==> out[j-1] == in[lo(len(in), j) + sz(len(in), 2*j)]
+//@   ensures forall j int :: 1 <= j && j <= len(in) && anc(j, k) ==> out[j-1] == in[rank(len(in), j)]
 //@   ensures forall j int :: 1 <= j && j <= len(out) && !anc(j, k) ==> out[j-1] == old(out[j-1])
 //@   use szNonneg(len(in), 2*k) && szNonneg(len(in), 2*k+1) && unfold(sz(len(in), k))
 //@   use unfold(lo(len(in), 2*k)) && unfold(lo(len(in), 2*k+1)) && ancDisjoint(k, k) && unfold(anc(k, k))
